@@ -20,8 +20,8 @@ PLAN = {
     "quick": {"configs": ["ext1", "ext0"], "nshards": 8, "timeout": 900},
     "thorough": {"configs": ["ext1", "ext0"], "nshards": 16, "timeout": 3400, "suite": ["ext1"]},
 }
-DECIDING = ["py.direct", "rs.direct", "backend_eq", "parse", "parse.exact", "reject", "roundtrip", "hook.parse_iso8601"]
-FLOORS = {"quick": {"py.direct": 300000, "rs.direct": 300000, "backend_eq": 300000, "parse": 100000, "parse.exact": 50000,
+DECIDING = ["py.direct", "rs.direct", "backend_eq", "parse", "parse.exact", "parse.tz", "reject", "roundtrip", "hook.parse_iso8601"]
+FLOORS = {"quick": {"py.direct": 300000, "rs.direct": 300000, "backend_eq": 300000, "parse": 100000, "parse.exact": 50000, "parse.tz": 50000,
                     "reject": 5000, "roundtrip": 20000, "hook.parse_iso8601": 100000},
           "thorough": {"py.direct": 2 * 10**7, "rs.direct": 2 * 10**7, "backend_eq": 2 * 10**7, "parse": 2 * 10**6, "parse.exact": 10**6,
                        "reject": 50000, "roundtrip": 200000, "hook.parse_iso8601": 2 * 10**6}}
@@ -40,6 +40,7 @@ ASSUMPTIONS = ["trusted base: CPython datetime (isocalendar, ordinals)",
                "excluded: bare hhmmss without T, mixed basic/extended, 24:00:00, leap seconds, years < 1583 for week/ordinal forms, fractions > 9 digits"]
 
 NOW = dt.datetime(2021, 3, 4, 5, 6, 7)
+TZ_OPTS = ("Europe/Paris", "America/New_York", "Asia/Kolkata", "UTC", "Pacific/Apia")
 
 
 def _norm(r):
@@ -105,7 +106,7 @@ def setup(M):
 
 
 # ---------------------------------------------------------------- judging one string
-def judge(M, s, exp, tag, full=True, direct=True, stag=None):
+def judge(M, s, exp, tag, full=True, direct=True, stag=None, tzopt=True):
     """exp = (kind, fields, off) the string denotes; tag = fine class key, stag = coarse mechanism tag for signatures"""
     ftag, tag = tag, (stag or tag)
     P = M.pendulum
@@ -145,6 +146,29 @@ def judge(M, s, exp, tag, full=True, direct=True, stag=None):
             M.check("parse", got == want, f"C07/parse:{tag}" + ("" if r[0] == "ok" else f":raised-{r[1]}"),
                     "pendulum.parse() does not return the denoted value", s=s, got=got, expected=want)
             M.digest(s, repr(got))
+            if tzopt and exp[0] in ("datetime", "date"):
+                # tz= option: an explicit offset in the text wins, a text without offset is read in that zone
+                zone = TZ_OPTS[(len(s) + exp[1][2]) % len(TZ_OPTS)]
+                r = _exc(P.parse, s, tz=zone)
+                f7 = exp[1] + (0, 0, 0, 0) if exp[0] == "date" else exp[1]
+                if r[0] != "ok":
+                    M.check("parse.tz", False, f"C07/parse-tz:{tag}:raised-{r[1]}", "parse(tz=) raised on a well-formed string", s=s, tz=zone, got=r)
+                else:
+                    v = r[1]
+                    if exp[2] is not None:
+                        ok = fields(v) == f7 and off_us(v) // US == exp[2]
+                        M.check("parse.tz", ok, "C07/parse-tz:explicit-offset-not-kept" + (":zero-offset" if exp[2] == 0 else ""),
+                                "parse(tz=) changed a value that carries its own offset", s=s, tz=zone, got=[list(fields(v)), off_us(v) // US],
+                                expected=[list(f7), exp[2]])
+                    else:
+                        from pvmon.common import wall_us as _w
+                        from pvmon.oracle import tzdb as _tz
+
+                        cls_ = _tz.Z.get(zone).classify_wall(_w(dt.datetime(*f7)))[0] if 2 < f7[0] < 9998 else "skip"
+                        if cls_ == "once":
+                            M.check("parse.tz", fields(v) == f7 and v.timezone_name == zone, "C07/parse-tz:naive-not-in-zone",
+                                    "parse(tz=) did not read a text without offset in the given zone", s=s, tz=zone,
+                                    got=[list(fields(v)), v.timezone_name])
             r = _exc(P.parse, s, exact=True)
             wantx = {"date": "Date", "time": "Time", "datetime": "DateTime"}[exp[0]]
             if r[0] == "ok":
@@ -243,7 +267,7 @@ def run(M, c):
                 if ed is None:
                     continue
                 tag = _tag_date(d, form)
-                judge(M, s, ("date", (ed.year, ed.month, ed.day), None), tag, full=(M.tier == "quick" or o % 8 == 0))
+                judge(M, s, ("date", (ed.year, ed.month, ed.day), None), tag, full=(M.tier == "quick" or o % 8 == 0), tzopt=(o % 5 == 0))
                 M.cls(tag, d.month, d.day if d.day > 27 else 0, d.year % 400 in (0, 100, 200, 300), d.year % 4 == 0)
             n += 1
         M.sample({"k": "dates", "from": str(dt.date.fromordinal(c["lo"])), "to": str(dt.date.fromordinal(c["hi"])), "mode": c["mode"], "dates": n})
@@ -341,7 +365,7 @@ def run(M, c):
                                        ("to_atom_string", lambda v: v.to_atom_string(), True), ("to_w3c_string", lambda v: v.to_w3c_string(), True)):
                 s = f(x)
                 M.current = {"k": "rt", "fields": list(F), "offm": offm, "fmt": name, "s": s}
-                rr = _exc(P.parse, s)
+                rr = _exc(P.parse, s) if i % 3 else _exc(P.parse, s, tz=TZ_OPTS[i % len(TZ_OPTS)])
                 want = (F[:6] + ((0,) if to_second else (F[6],)), offm * 60)
                 got = (fields(rr[1]), off_us(rr[1]) // US) if rr[0] == "ok" and isinstance(rr[1], dt.datetime) else rr
                 M.check("roundtrip", got == want, f"C07/roundtrip:{name}", "parse() does not invert the renderer", s=s, got=got, expected=want)
